@@ -128,7 +128,10 @@ def canon_tags(calls):
 
 def run_unit(case):
     """-> (canonical output, raw calls)"""
-    checker, calls = H.make_checker()
+    try:
+        checker, calls = H.make_checker()
+    except Exception as exc:
+        return 'err ' + type(exc).__name__, []
     ctx = types.SimpleNamespace()
     ctx.is_template = case['template']
     ctx.encoding = 'UTF-8' if case['encoding'] else None
@@ -197,15 +200,18 @@ def encode(case, pre=None):
 def lastint_cases(rng, count):
     lines, outs = [], []
     from lib.strformat import c as cb
-    while len(lines) < count:
+    attempts = 0
+    while len(lines) < count and attempts < 20 * count + 100:
+        attempts += 1
         convs = G.c_sig(rng)
         s = G.c_string(rng, convs, rng.choice(['same', 'same', 'add', 'restar']), dup=rng.random() < 0.3)['text']
         try:
             fmt = cb.FormatString(s)
-        except cb.Error:
+            items = list(fmt)
+            nargs = len(fmt.arguments)
+        except Exception:
             continue
-        items = list(fmt)
-        for n in range(0, len(fmt.arguments) + 2):
+        for n in range(0, nargs + 2):
             try:
                 r = fmt.get_last_integer_conversion(n=n)
                 out = 'ok none' if r is None else 'ok %d' % next(i for i, x in enumerate(items) if x is r)
